@@ -115,7 +115,7 @@ package parallel
 //@ extern func GetParallelStatus
 //@   params job, tasks
 //@   ensures result1 == nil ==> len(result0.Indexes) == numIdx(specOf(job))
-//@   ensures result1 == nil ==> (forall i int :: {result0.Indexes[i]} 0 <= i && i < numIdx(specOf(job)) ==> (let h = idxHash(specOf(job), i) in
+//@   ensures result1 == nil ==> (let sp = specOf(job) in forall i int :: {result0.Indexes[i]} {idxHash(sp, i)} 0 <= i && i < numIdx(sp) ==> (let h = idxHash(sp, i) in
 //@        result0.Indexes[i].Hash == h
 //@        && result0.Indexes[i].Result == (succI(tasks, h) ? execution.TaskSucceeded : (exhaustedI(tasks, h, job.GetMaxAttempts()) ? execution.TaskFailed : ""))
 //@        && result0.Indexes[i].State == (!hasI(tasks, h) ? execution.IndexNotCreated
